@@ -700,8 +700,10 @@ func ruleM7(c *Ctx) {
 			for _, s := range b.Succs {
 				if !l.body[s] {
 					okl = false
-					if n := len(b.Instrs); n > 0 {
-						at = b.Instrs[n-1].Pos()
+					for _, in := range b.Instrs {
+						if in.Pos().IsValid() {
+							at = in.Pos()
+						}
 					}
 				}
 			}
